@@ -34,11 +34,15 @@ takes `earliest()` of the first time that exists and walks back second by second
   former finding class `zone-not-ok` = `gapLandsInFold`); witness `datetime_gap_then_fold_witness`.
 * `datetime_mono` is still FALSE for arguments with different sub-second phases inside a gap
   (`datetime_mono_false`); true forms: `datetime_mono_aligned(_ordered)`, `datetime_mono_congr(_ordered)`.
-* localized = naive evaluation: `iter_range`, `next_change` and `state` (`state_localized`) in full.
+* localized = naive evaluation (code of /repo dfe1ade): `state_localized` (purely naive);
+  `iterRange_localized`: the naive stream with the spans the clock skips entirely dropped
+  (`filter_drops_exactly_skipped`), the neighbours they separated merged, bounds mapped by `datetime`
+  (`iterRange_bounds_mapped`); `nextChange_localized`: the end of the first range of that stream.
+* no interval of the localized stream is empty: `localized_intervals_nonempty` (every `ZoneOrdered`
+  table; former finding D16 of C02), adjacent kinds differ: `localized_adjacent_kinds_differ`;
+  witness `D16_repaired_witness` (Paris 2024-03-31 `02:30-02:45`: 3 intervals).
 * bounds never go backwards: `bounds_never_go_backwards_ordered`, FULL for `ZoneOrdered ∧ WholeSeconds`
   tables (`bounds_never_go_backwards` is its `ZoneOK` instance).
-  Bounds can be EQUAL: D16 (`D16_empty_interval_witness`, class `localSpanInGap`: `D16_class`) —
-  a C02 matter (non-empty intervals), not a C09 violation.
 * Representability hypotheses `instMin ≤ n` appear because the walk back subtracts seconds
   (`NaiveDateTime - TimeDelta` panics below `NaiveDateTime::MIN`; unreachable: `datetime_no_panic`).
 -/
@@ -470,26 +474,171 @@ example (ctx : Ctx) (e : Expr) (t : Int) : stateG (envOf ctx e) t = state ctx e 
 example (ctx : Ctx) (e : Expr) (t : Int) : nextChangeG (envOf ctx e) t = nextChange ctx e t := rfl
 example (ctx : Ctx) (e : Expr) (f t : Int) : iterRangeG (envOf ctx e) f t = iterRangeNaive ctx e f t := rfl
 
-/-- `iter_range`: the naive iteration between the wall-clock times of the bounds, each bound
-mapped by `datetime` -/
+/-- `iter_range` (code of /repo dfe1ade): the naive iteration between the wall-clock times of the
+bounds; the spans the clock skips entirely are dropped (`filterRanges`), the neighbours they separated
+are merged (`mergeRanges`), then each bound is mapped by `datetime` (`mapIntervals`):
+`localizeRanges z l = filterRanges z l >>= fun fl => mapIntervals z (mergeRanges fl)` -/
 theorem iterRange_localized {env : Env} {z : Zone} {f t : Int}
     (hf : instMin ≤ naive z f ∧ naive z f ≤ instMax) (ht : instMin ≤ naive z t ∧ naive z t ≤ instMax) :
     iterRangeTzG env z f t =
       match iterRangeG env (naive z f) (naive z t) with
       | .error p => .error p
-      | .ok l => mapIntervals z l := by
+      | .ok l => localizeRanges z l := by
   unfold iterRangeTzG
   rw [naiveChecked_ok hf.1 hf.2, naiveChecked_ok ht.1 ht.2]
   simp only [iterRangeG_clamp]
   cases iterRangeG env (naive z f) (naive z t) <;> rfl
 
-/-- … and every returned bound is `datetime` of the corresponding naive bound -/
-theorem iterRange_bounds_mapped {z : Zone} {l out : List Interval} (h : mapIntervals z l = .ok out) :
-    ∀ y ∈ out, ∃ x ∈ l, datetime z x.start = .ok y.start ∧ datetime z x.stop = .ok y.stop ∧
-      y.kind = x.kind ∧ y.comments = x.comments := by
+example (z : Zone) (l : List Interval) :
+    localizeRanges z l = (match filterRanges z l with
+      | .error p => .error p
+      | .ok fl => mapIntervals z (mergeRanges fl)) := rfl
+
+/-- … every returned interval is a group of naive intervals `a … b` of one kind, all of which passed
+the filter: it starts at `datetime a.start`, stops at `datetime b.stop`, has their kind and the
+comments of `a` -/
+theorem iterRange_bounds_mapped {z : Zone} {l out : List Interval} (h : localizeRanges z l = .ok out) :
+    ∀ y ∈ out, ∃ a ∈ l, ∃ b ∈ l, keepRange z a = .ok true ∧ keepRange z b = .ok true ∧
+      datetime z a.start = .ok y.start ∧ datetime z b.stop = .ok y.stop ∧
+      y.kind = a.kind ∧ b.kind = a.kind ∧ y.comments = a.comments := by
   intro y hy
-  obtain ⟨x, hx, hm⟩ := mapIntervals_mem h y hy
-  exact ⟨x, hx, mapInterval_spec hm⟩
+  unfold localizeRanges at h
+  split at h
+  · cases h
+  · rename_i fl hfl
+    obtain ⟨hsub, hkeep⟩ := filterRanges_spec hfl
+    obtain ⟨c, hc, hm⟩ := mapIntervals_mem h y hy
+    obtain ⟨m1, m2, m3, m4⟩ := mapInterval_spec hm
+    obtain ⟨a, ha, b, hb, q1, q2, q3, q4, q5, _⟩ := mergeRanges_mem c hc
+    refine ⟨a, hsub.subset ha, b, hsub.subset hb, hkeep a ha, hkeep b hb, ?_, ?_, ?_, q4, ?_⟩
+    · rw [← q1]; exact m1
+    · rw [← q2]; exact m2
+    · rw [m3, q3]
+    · rw [m4, q5]
+
+/-- "the clock skips the whole span": no local time in `[a, b)` exists -/
+def Skipped (z : Zone) (a b : Int) : Prop := ∀ m, a ≤ m → m < b → ¬ Valid z m
+
+/-- the oracle's predicate `localSpanInGap` (the class predicate of the former finding D16) is the
+definition -/
+theorem localSpanInGap_iff_skipped {z : Zone} (hz : ZoneOrdered z) (a b : Int) :
+    localSpanInGap z a b = true ↔ a < b ∧ Skipped z a b := by
+  rw [localSpanInGap_iff hz.sorted hz.ordered]
+  unfold Skipped
+  constructor
+  · intro ⟨h1, h2⟩
+    exact ⟨h1, fun m m1 m2 hv => (valid_iff_latest_of_sorted hz.sorted m).mp hv (h2 m m1 m2)⟩
+  · intro ⟨h1, h2⟩
+    refine ⟨h1, fun m m1 m2 => ?_⟩
+    apply Classical.byContradiction
+    intro hc
+    exact h2 m m1 m2 ((valid_iff_latest_of_sorted hz.sorted m).mpr hc)
+
+/-- **what the filter drops**: a non-empty naive span whose start is a whole second or an existing
+local time (every bound the evaluator produces) is dropped iff the clock skips all of it -/
+theorem filter_drops_exactly_skipped {z : Zone} (hz : ZoneOrdered z) (hsec : WholeSeconds z)
+    (hend : EndsBefore z instMax) {iv : Interval} (hmin : instMin ≤ iv.start) (hle : iv.start ≤ instMax)
+    (hne : iv.start < iv.stop) (hws : iv.start % nsPerSec = 0 ∨ Valid z iv.start) :
+    ∃ k, keepRange z iv = .ok k ∧ (k = false ↔ Skipped z iv.start iv.stop) := by
+  refine ⟨_, keepRange_eq hz.sorted hz.ordered hsec hend hmin hle hne
+    (hws.imp id (valid_iff_latest_of_sorted hz.sorted _).mp), ?_⟩
+  have := localSpanInGap_iff_skipped hz iv.start iv.stop
+  cases hk : localSpanInGap z iv.start iv.stop with
+  | true => simp only [Bool.not_true, true_iff]; exact (this.mp hk).2
+  | false =>
+    simp only [Bool.not_false, Bool.true_eq_false, false_iff]
+    intro hsk
+    rw [this.mpr ⟨hne, hsk⟩] at hk
+    cases hk
+
+/-- **no interval of the localized stream is empty** (`start < stop` as instants), for every
+`ZoneOrdered` table — the clause of C02 "intervals are non-empty" in a zone context (former finding
+D16).  The naive stream may be anything whose starts are representable. -/
+theorem localized_intervals_nonempty {z : Zone} (hz : ZoneOrdered z) (hend : EndsBefore z instMax)
+    {l out : List Interval} (hrep : ∀ iv ∈ l, instMin ≤ iv.start ∧ iv.start ≤ instMax)
+    (h : localizeRanges z l = .ok out) : ∀ y ∈ out, y.start < y.stop := by
+  intro y hy
+  unfold localizeRanges at h
+  split at h
+  · cases h
+  · rename_i fl hfl
+    obtain ⟨hsub, hkeep⟩ := filterRanges_spec hfl
+    -- a kept range is not inverted: the local time shown at `datetime start` is `≥ start` and `< stop`
+    have hne : ∀ x ∈ fl, x.start ≤ x.stop := by
+      intro x hx
+      obtain ⟨u, hu, hu2⟩ := keepRange_true (hkeep x hx)
+      have r := hrep x (hsub.subset hx)
+      have := datetime_naive_bound hz.sorted hend r.1 r.2 hu
+      omega
+    obtain ⟨c, hc, hm⟩ := mapIntervals_mem h y hy
+    obtain ⟨m1, m2, _, _⟩ := mapInterval_spec hm
+    obtain ⟨a, ha, b, hb, q1, q2, _, _, _, q6⟩ := mergeRanges_mem c hc
+    obtain ⟨u, hu, hu2⟩ := keepRange_true (hkeep a ha)
+    rw [← q1, m1] at hu
+    cases hu
+    have r := hrep a (hsub.subset ha)
+    have hb0 := datetime_naive_bound hz.sorted hend r.1 r.2 (q1 ▸ m1)
+    have hle := q6 hne
+    exact datetime_lt_of_naive_lt hz.sorted hz.ordered hend (by omega) (by omega) m2
+
+/-- … in particular for `iter_range` -/
+theorem iterRange_intervals_nonempty {env : Env} {z : Zone} {f t : Int} {out : List Interval}
+    (hz : ZoneOrdered z) (hend : EndsBefore z instMax) (hf : instMin ≤ naive z f)
+    (h : iterRangeTzG env z f t = .ok out) : ∀ y ∈ out, y.start < y.stop := by
+  unfold iterRangeTzG at h
+  split at h
+  · cases h
+  · rename_i nf hnf
+    split at h
+    · cases h
+    · split at h
+      · cases h
+      · rename_i l hl
+        have e := naiveChecked_eq hnf
+        have hw := iterRangeG_window hl
+        have h1 := instEnd_le_instMax
+        have h2 := instMin_le_instEnd
+        apply localized_intervals_nonempty hz hend ?_ h
+        intro iv hiv
+        have := hw iv hiv
+        simp only [clamp_idem] at this
+        omega
+
+/-- **full coalescing restores alternation**: adjacent intervals of the localized stream have
+different kinds whenever the naive stream is in order (each range ends before the later ones start:
+C02 Layer A) — whatever was dropped in between -/
+theorem localized_adjacent_kinds_differ {z : Zone} {l out : List Interval}
+    (hord : l.Pairwise (fun a b => a.stop ≤ b.start)) (h : localizeRanges z l = .ok out) :
+    ∀ i (hi : i + 1 < out.length), out[i].kind ≠ out[i + 1].kind := by
+  unfold localizeRanges at h
+  split at h
+  · cases h
+  · rename_i fl hfl
+    obtain ⟨hsub, _⟩ := filterRanges_spec hfl
+    exact (mapIntervals_adjDiffer h (mergeRanges_adjDiffer (hord.sublist hsub))).1.get
+
+/-- without a zone (`naive` and `datetime` are the identity: the filter is `start < end`) the new
+`iter_range` is the naive stream itself as soon as no two neighbours are mergeable — which is the
+case when neighbours have different kinds (C02 Layer A, `iter_adjacent_kinds_differ`) and for the
+bounded streams of C16 (an interval reported as ending at `DATE_END` overlaps its successor) -/
+theorem noLocation_iterRange_unchanged {l : List Interval} (hne : ∀ iv ∈ l, iv.start < iv.stop)
+    (hadj : ∀ i (hi : i + 1 < l.length), l[i].kind ≠ l[i + 1].kind ∨ l[i + 1].start < l[i].stop) :
+    mergeRanges (l.filter (fun iv => decide (iv.start < iv.stop))) = l := by
+  have hf : l.filter (fun iv => decide (iv.start < iv.stop)) = l := by
+    apply List.filter_eq_self.mpr
+    intro iv hiv
+    simp only [decide_eq_true_eq]
+    exact hne iv hiv
+  rw [hf]
+  apply mergeRanges_eq_self
+  intro i hi
+  cases hm : mergeable l[i] l[i + 1] with
+  | false => rfl
+  | true =>
+    obtain ⟨h1, h2⟩ := mergeable_iff.mp hm
+    rcases hadj i hi with h | h
+    · exact absurd h1.symm h
+    · omega
 
 /-- `state`: the state at an absolute instant is the NoLocation state at its wall-clock time in
 the context zone — for every table (no `ZoneOK` needed); the only hypothesis is that the wall-clock
@@ -506,18 +655,25 @@ theorem state_localized_expr (ctx : Ctx) (e : Expr) {z : Zone} {t : Int}
     (hlo : instMin ≤ naive z t) (hhi : naive z t ≤ instMax) :
     stateTz ctx e z t = state ctx e (naive z t) := stateTzG_eq hlo hhi
 
-/-- `next_change`: `some c` is mapped by `datetime` … -/
-theorem nextChange_localized_some {env : Env} {z : Zone} {t c : Int} (hz : ZoneOK z)
+/-- `next_change`, exact form (code of /repo dfe1ade): the end of the FIRST range of the filtered and
+merged naive stream from the wall-clock time to `DATE_END`, mapped by `datetime`; `None` when that
+range reaches `DATE_END`.  (`l` exists for every day level meeting `EnvOK`: `iterRangeG_total`.)
+When nothing is skipped at the naive next change this is `datetime` of the naive answer; when the
+span that starts there is skipped by the clock (Paris 2024-03-31 `02:30-02:45`, asked at 01:00: naive
+answer 02:30) the state does not change there and the answer is the end of the merged range (02:30
+of the next day). -/
+theorem nextChange_localized {env : Env} {z : Zone} {t : Int} {l fl : List Interval} (hz : ZoneOrdered z)
     (hend : EndsBefore z instEnd) (hlo : instMin ≤ naive z t) (hhi : naive z t ≤ instMax)
-    (h : nextChangeG env (naive z t) = .ok (some c)) (hc : instMin ≤ c) :
-    ∃ u, datetime z c = .ok u ∧ nextChangeTzG env z t = .ok (some u) :=
-  nextChangeTzG_some hz.sorted hend hlo hhi h hc
-
-/-- … `none` stays `none` … -/
-theorem nextChange_localized_none {env : Env} {z : Zone} {t : Int} (hz : ZoneOK z)
-    (hend : EndsBefore z instEnd) (hlo : instMin ≤ naive z t) (hhi : naive z t ≤ instMax)
-    (h : nextChangeG env (naive z t) = .ok none) : nextChangeTzG env z t = .ok none :=
-  nextChangeTzG_none hz.sorted hend hlo hhi h
+    (hl : iterRangeG env (naive z t) instEnd = .ok l) (hfl : filterRanges z l = .ok fl) :
+    nextChangeTzG env z t =
+      match (mergeRanges fl).head? with
+      | none => .ok none
+      | some c =>
+        if c.stop ≥ instEnd then .ok none
+        else match datetime z c.stop with
+          | .error p => .error p
+          | .ok u => .ok (some u) :=
+  nextChangeTzG_exact hz.sorted hend hlo hhi hl hfl
 
 /-- … and a panic of the naive evaluation is the same panic -/
 theorem nextChange_localized_error {env : Env} {z : Zone} {t : Int} {p : String} (hz : ZoneOK z)
@@ -539,7 +695,7 @@ theorem bounds_never_go_backwards_ordered {env : Env} {z : Zone} {f t : Int} {l 
     (hz : ZoneOrdered z) (hsec : WholeSeconds z) (hend : EndsBefore z instMax)
     (hf : instMin ≤ naive z f)
     (hl : iterRangeG env (min instEnd (naive z f)) (min instEnd (naive z t)) = .ok l)
-    (hord : Ordered l) (hout : mapIntervals z l = .ok out) : Ordered out := by
+    (hord : Ordered l) (hout : localizeRanges z l = .ok out) : Ordered out := by
   have hcls := iterRangeG_class hl
   simp only [clamp_idem] at hcls
   have hie := instMin_le_instEnd
@@ -558,16 +714,28 @@ theorem bounds_never_go_backwards_ordered {env : Env} {z : Zone} {f t : Int} {l 
     obtain ⟨c1, c2, c3⟩ := hcls iv hiv
     have hss := hord.1 iv hiv
     exact ⟨⟨by omega, key f _ c1⟩, ⟨by omega, key t _ c2⟩⟩
-  exact mapIntervals_ordered (fun x => instMin ≤ x ∧ (x % nsPerSec = 0 ∨ Valid z x))
-    (fun a b ua ub hab hCa hua hub => datetime_mono_aligned_ordered hz hsec hend hCa.1 hab hCa.2 hua hub)
-    hout hC hord
+  -- the filtered and merged list is ordered too, and its bounds are bounds of `l`
+  unfold localizeRanges at hout
+  split at hout
+  · cases hout
+  · rename_i fl hfl
+    obtain ⟨hsub, _⟩ := filterRanges_spec hfl
+    have hC' : ∀ c ∈ mergeRanges fl, (instMin ≤ c.start ∧ (c.start % nsPerSec = 0 ∨ Valid z c.start)) ∧
+        (instMin ≤ c.stop ∧ (c.stop % nsPerSec = 0 ∨ Valid z c.stop)) := by
+      intro c hc
+      obtain ⟨a, ha, b, hb, q1, q2, _⟩ := mergeRanges_mem c hc
+      rw [q1, q2]
+      exact ⟨(hC a (hsub.subset ha)).1, (hC b (hsub.subset hb)).2⟩
+    exact mapIntervals_ordered (fun x => instMin ≤ x ∧ (x % nsPerSec = 0 ∨ Valid z x))
+      (fun a b ua ub hab hCa hua hub => datetime_mono_aligned_ordered hz hsec hend hCa.1 hab hCa.2 hua hub)
+      hout hC' (mergeRanges_ordered (hord.sublist hsub))
 
 /-- the `ZoneOK` instance -/
 theorem bounds_never_go_backwards {env : Env} {z : Zone} {f t : Int} {l out : List Interval}
     (hz : ZoneOK z) (hsec : WholeSeconds z) (hend : EndsBefore z instMax)
     (hf : instMin ≤ naive z f)
     (hl : iterRangeG env (min instEnd (naive z f)) (min instEnd (naive z t)) = .ok l)
-    (hord : Ordered l) (hout : mapIntervals z l = .ok out) : Ordered out :=
+    (hord : Ordered l) (hout : localizeRanges z l = .ok out) : Ordered out :=
   bounds_never_go_backwards_ordered hz.toOrdered hsec hend hf hl hord hout
 
 /-- across the former `zone-not-ok` witness the bounds are ordered: Lisbon 1992-09-27 `01:30-02:00`
@@ -657,11 +825,17 @@ theorem gapLandsInFold_false {z : Zone} (hz : ZoneOK z) (n : Int) : gapLandsInFo
     simp
   · rfl
 
-/-! ## D16: bounds can be equal (empty intervals) — not a C09 violation (bounds do not go backwards)
-but C02's "intervals are non-empty" in a zone context -/
+/-! ## D16 (repaired in /repo dfe1ade): a local span inside a gap
 
-/-- refutation of strict non-emptiness: `02:30-02:45` in Europe/Paris on 2024-03-31 — both bounds
-are mapped to `03:00 +02` = 01:00 UTC -/
+`datetime` maps both bounds of a local span that the clock skips to the same instant
+(`D16_empty_interval_witness`, `D16_class`: still true, they are statements about `datetime`).  The
+former `iter_range` mapped every naive interval and so returned an EMPTY interval there (C02's
+"intervals are non-empty" in a zone context; former open finding D16).  `iter_range` now drops such
+spans before mapping and merges the neighbours: `localized_intervals_nonempty`,
+`localized_adjacent_kinds_differ`, `filter_drops_exactly_skipped` above, witness below. -/
+
+/-- why the filter is needed: `02:30-02:45` in Europe/Paris on 2024-03-31 — both bounds are mapped to
+`03:00 +02` = 01:00 UTC -/
 theorem D16_empty_interval_witness :
     datetime paris2024 63847535400000000000 = .ok 63847530000000000000 ∧
     datetime paris2024 63847536300000000000 = .ok 63847530000000000000 ∧
@@ -675,12 +849,65 @@ theorem D16_empty_interval_witness :
         some (63847530000000000000, 63847533600000000000, 63847537200000000000))
 
 /-- the class: a local span that starts inside a gap and ends inside it or at its end, both bounds
-with the same phase within the second (always so for the evaluator's whole-minute bounds), is
-mapped to an EMPTY interval -/
+with the same phase within the second (always so for the evaluator's whole-minute bounds), has both
+bounds mapped to the SAME instant -/
 theorem D16_class {z : Zone} (hz : ZoneOK z) (hend : EndsBefore z instMax) {a b : Int}
     (hg : localSpanInGap z a b = true) (hc : (b - a) % nsPerSec = 0) (hmin : instMin ≤ a) :
     datetime z a = datetime z b :=
   datetime_eq_of_localSpanInGap hz.sorted hz.spaced hend hg hc hmin
+
+/-- the naive stream of `02:30-02:45` between 2024-03-30 00:00Z and 2024-04-01 00:00Z in Europe/Paris
+(wall-clock window 03-30 01:00 … 04-01 02:00): closed / open / closed / open (skipped by the clock
+on 03-31) / closed -/
+def parisD16Naive : List Interval :=
+  [⟨63847443600000000000, 63847449000000000000, .closed, []⟩,
+   ⟨63847449000000000000, 63847449900000000000, .open, []⟩,
+   ⟨63847449900000000000, 63847535400000000000, .closed, []⟩,
+   ⟨63847535400000000000, 63847536300000000000, .open, []⟩,
+   ⟨63847536300000000000, 63847620000000000000, .closed, []⟩]
+
+/-- **witness of the repaired behaviour** (`tz.iter Europe/Paris Asia/Tokyo 738975:0 738977:0 - 02:30-02:45`,
+`corpus/C02/d16-span-in-gap.ops`): the skipped `02:30-02:45` of 03-31 is dropped, the two closed
+ranges around it are merged: THREE intervals closed / open / closed, none empty, kinds alternating
+(the former code returned five, the fourth being the empty `01:00Z..01:00Z`) -/
+theorem D16_repaired_witness :
+    localizeRanges paris2024 parisD16Naive = .ok
+      [⟨63847440000000000000, 63847445400000000000, .closed, []⟩,
+       ⟨63847445400000000000, 63847446300000000000, .open, []⟩,
+       ⟨63847446300000000000, 63847612800000000000, .closed, []⟩] := by
+  have d1 : datetime paris2024 63847443600000000000 = .ok 63847440000000000000 := datetime_of_some (by decide)
+  have d2 : datetime paris2024 63847449000000000000 = .ok 63847445400000000000 := datetime_of_some (by decide)
+  have d3 : datetime paris2024 63847449900000000000 = .ok 63847446300000000000 := datetime_of_some (by decide)
+  have d4 := D16_empty_interval_witness.1
+  have d5 := D16_empty_interval_witness.2.1
+  have d6 : datetime paris2024 63847620000000000000 = .ok 63847612800000000000 := datetime_of_some (by decide)
+  have k1 : keepRange paris2024 ⟨63847443600000000000, 63847449000000000000, .closed, []⟩ = .ok true := by
+    rw [keepRange_ok (iv := ⟨_, _, _, _⟩) d1 (by decide) (by decide)]; exact congrArg _ (by decide)
+  have k2 : keepRange paris2024 ⟨63847449000000000000, 63847449900000000000, .open, []⟩ = .ok true := by
+    rw [keepRange_ok (iv := ⟨_, _, _, _⟩) d2 (by decide) (by decide)]; exact congrArg _ (by decide)
+  have k3 : keepRange paris2024 ⟨63847449900000000000, 63847535400000000000, .closed, []⟩ = .ok true := by
+    rw [keepRange_ok (iv := ⟨_, _, _, _⟩) d3 (by decide) (by decide)]; exact congrArg _ (by decide)
+  have k4 : keepRange paris2024 ⟨63847535400000000000, 63847536300000000000, .open, []⟩ = .ok false := by
+    rw [keepRange_ok (iv := ⟨_, _, _, _⟩) d4 (by decide) (by decide)]; exact congrArg _ (by decide)
+  have k5 : keepRange paris2024 ⟨63847536300000000000, 63847620000000000000, .closed, []⟩ = .ok true := by
+    rw [keepRange_ok (iv := ⟨_, _, _, _⟩) d5 (by decide) (by decide)]; exact congrArg _ (by decide)
+  have hm : mergeRanges
+      [⟨63847443600000000000, 63847449000000000000, .closed, []⟩,
+       ⟨63847449000000000000, 63847449900000000000, .open, []⟩,
+       ⟨63847449900000000000, 63847535400000000000, .closed, []⟩,
+       (⟨63847536300000000000, 63847620000000000000, .closed, []⟩ : Interval)] =
+      [⟨63847443600000000000, 63847449000000000000, .closed, []⟩,
+       ⟨63847449000000000000, 63847449900000000000, .open, []⟩,
+       ⟨63847449900000000000, 63847620000000000000, .closed, []⟩] := by decide
+  simp only [localizeRanges, parisD16Naive, filterRanges, k1, k2, k3, k4, k5, if_true,
+    Bool.false_eq_true, if_false, hm, mapIntervals, mapInterval, d1, d2, d3, d6]
+
+/-- … to which the general theorems apply -/
+example : ∀ y ∈ ([⟨63847440000000000000, 63847445400000000000, .closed, []⟩,
+       ⟨63847445400000000000, 63847446300000000000, .open, []⟩,
+       ⟨63847446300000000000, 63847612800000000000, .closed, []⟩] : List Interval), y.start < y.stop :=
+  localized_intervals_nonempty (z := paris2024) (by decide) (by decide) (l := parisD16Naive)
+    (by decide) D16_repaired_witness
 
 /-- the class predicate's gap test is exact -/
 theorem gapOf_isSome_iff_not_valid {z : Zone} (hz : ZoneOK z) (n : Int) :
